@@ -155,6 +155,10 @@ def run_check(chk, tier, replay=None):
         okc, chk_summary = B.coqchk_props(chk.props)
         if not okc:
             broken.append({"file": ",".join(chk.props), "theorem": "(coqchk)", "assumptions": chk_summary, "ok": False})
+    if not binfo.get("harness_ok", True):
+        broken.append({"file": "harness/", "theorem": "(the Go harness no longer compiles against this tree: the exported API or AST changed; "
+                       "model and implementation cannot be compared) " + binfo.get("harness_log", "").strip().splitlines()[-1][:200],
+                       "assumptions": "", "ok": False})
     not_extracted = []
     for m in binfo.get("gen_missing", []):
         for t in m.get("tables", []):
